@@ -129,7 +129,7 @@ func (d *brokerDrv) newBroker(m map[string]string) string {
 	d.b = b
 	d.sessions = map[string]*session{}
 	d.opIndex = 0
-	d.qTimeout = time.Duration(geti(m, "qt", 3000)) * time.Millisecond
+	d.qTimeout = time.Duration(geti(m, "qt", 20000)) * time.Millisecond
 	return "ok"
 }
 
